@@ -757,8 +757,10 @@ class DefaultControllerPlugin(ControllerPluginBase):
             return template % (name, 'abnormal termination')
         elif code == xmlrpc.Faults.SUCCESS:
             return '%s: started' % name
-        # assertion
-        raise ValueError('Unknown result code %s for %s' % (code, name))
+        # any other fault: report it for this target and let the caller go
+        # on with the remaining targets (the exit status is set by the caller)
+        return template % (name, 'unexpected result code %s: %s' % (
+            code, result['description']))
 
     def do_start(self, arg):
         if not self.ctl.upcheck():
@@ -831,8 +833,10 @@ class DefaultControllerPlugin(ControllerPluginBase):
             return '%s: %s' % (name, success)
         elif code == xmlrpc.Faults.FAILED:
             return fault_string
-        # assertion
-        raise ValueError('Unknown result code %s for %s' % (code, name))
+        # any other fault: report it for this target and let the caller go
+        # on with the remaining targets (the exit status is set by the caller)
+        return template % (name, 'unexpected result code %s: %s' % (
+            code, fault_string))
 
     def _stopresult(self, result):
         return self._signalresult(result, success='stopped')
@@ -1257,7 +1261,10 @@ class DefaultControllerPlugin(ControllerPluginBase):
             return template % (name, 'failed')
         elif code == xmlrpc.Faults.SUCCESS:
             return '%s: cleared' % name
-        raise ValueError('Unknown result code %s for %s' % (code, name))
+        # any other fault: report it for this target and let the caller go
+        # on with the remaining targets (the exit status is set by the caller)
+        return template % (name, 'unexpected result code %s: %s' % (
+            code, result['description']))
 
     def do_clear(self, arg):
         if not self.ctl.upcheck():
